@@ -905,3 +905,30 @@ def sum_term(st, a):
 
 def lse_term(st, a):
     return array_fn(st, 'logsumexp', a, 'real')
+
+
+def tuple_fn(st, name, arrays, scalars=(), kind='real'):
+    """Value of a deterministic function of several arrays and scalars (e.g. a
+    read-only accessor of an object): one fresh constant per distinct argument
+    tuple, with extensionality between applications on this path."""
+    memo = {}
+    key = [name]
+    for a in arrays:
+        key.append(A.canon_key(z3.simplify(a.at(A._PROBE)), memo))
+        key.append(A.canon_key(z3.simplify(a.n), memo))
+    for x in scalars:
+        key.append(A.canon_key(z3.simplify(x), memo))
+    key = tuple(key)
+    apps = st.ghost.get('tuple_apps', {})
+    if key in apps:
+        return apps[key][0]
+    t = z3.Const(uid(name), A.sort_of(kind))
+    for k2, (t2, arrs2, sc2) in apps.items():
+        if k2[0] == name and len(arrs2) == len(arrays):
+            same = [A.arr_eq(a, b) for a, b in zip(arrays, arrs2)] + \
+                [x == y for x, y in zip(scalars, sc2)]
+            st.assume(z3.Implies(z3.And(*same), t == t2))
+    apps = dict(apps)
+    apps[key] = (t, list(arrays), list(scalars))
+    st.ghost['tuple_apps'] = apps
+    return t
